@@ -740,6 +740,8 @@ func runC05(c *Check) {
 	c.ruleAccumulatorNeverAliasesIndex("R13")
 	c.ruleEveryInputRegistered("R14")
 	c.ruleAddingNeverEvicts("R15")
+	c.ruleSpenderListExtendsItsOwn("R16")
+	c.ruleConflictsAccumulatedForEveryInput("R17")
 
 	// ---- R7 lockset
 	c.lockset("R7", "state", "MemPool", "mutex", c.structFields("state", "MemPool", "mutex"), []string{"state"}, nil, 20)
